@@ -1,5 +1,6 @@
 """C06 - errors in background work surface at the right position."""
 from .. import pargen, parrun, parprops
+from .. import workload as W
 from ..parprops import COMPONENTS, ASSUMPTIONS  # noqa
 
 PROP = 'C06'
@@ -24,7 +25,7 @@ BUDGET = {
     'thorough': {'families': 40000, 'wall_cap': 5400, 'shrink_s': 40},
 }
 
-KINDS = ['value', 'filter', 'filter_sub', 'key', 'index', 'timeout', 'notimpl', 'base']
+KINDS = ['value', 'filter', 'filter_sub', 'key', 'index', 'timeout', 'notimpl', 'stopiter', 'base']
 
 
 def gen_systematic(rng):
@@ -78,6 +79,31 @@ def gen(rng, tier, index):
     return cases
 
 
+def _check_nothing_swallowed(case, res, out):
+    """Independent of the sequential reference (which would share a defect of
+    the stages themselves): an epoch in which an injected exception outside the
+    selected set was raised must not end as if the input were exhausted."""
+    if out['violations']:
+        return
+    st = parprops.par_stage(case['desc'])
+    caught = W.catch_spec_types(st.get('catch')) if st.get('catch') else ()
+    pn = parprops.path_name(case['desc'])
+    for which, log, epochs in (('', res['log'], res['epochs']),
+                               (':sequential', res['ref_log'], res['ref']['epochs'])):
+        for ep, ev in enumerate(parrun.split_epochs(log)):
+            if ep >= len(epochs) or epochs[ep]['end'] != 'exhausted':
+                continue
+            for e in ev:
+                if e[2] == 'raise' and not (caught and issubclass(W.EXC_KINDS[e[5]], caught)):
+                    out['violations'].append(parprops.viol(
+                        'error_swallowed', 'error_swallowed:%s:%s%s' % (pn, e[5], which),
+                        'epoch %d: stage %s raised %s for %s, yet the %s ended as if the input '
+                        'were exhausted after %d examples'
+                        % (ep, e[3], W.EXC_KINDS[e[5]].__name__, list(e[4]),
+                           'sequential pipeline' if which else 'stream', len(epochs[ep]['out']))))
+                    return
+
+
 def run(case):
     res = parrun.run_par_case(case)
     out = parprops.base_outcome(case, res)
@@ -86,6 +112,7 @@ def run(case):
         out['probes']['all_single_preemption_schedules_of_a_tiny_workload'] = 1
     if not parprops.check_failure(case, res, out):
         parprops.check_transparent(case, res, out, identity=True)
+        _check_nothing_swallowed(case, res, out)
         parprops.check_clean_stop(case, res, out)
         n = case['desc']['source']['n']
         for p, r in zip(res['epochs'], res['ref']['epochs']):
